@@ -456,6 +456,17 @@ Definition create_check_of (f : ver_flags) (e : json) : create_check :=
          cc_room_id_present := match ev_str k_room_id e with [] => false | _ => true end |}
   end.
 
+(* the power-levels part of allowerContext.update: (usable event present, effective content) *)
+Definition pl_of_auths (f : ver_flags) (creator : bytes) (auths : list json) : bool * pl_content :=
+  match find_auth t_power_levels [] auths with
+  | None => (false, pl_absent creator)
+  | Some p =>
+      match pl_of_event (vf_int_levels f) p with
+      | Some c => (true, c)
+      | None => (false, pl_zero)
+      end
+  end.
+
 Section Abs.
   (* third-party-invite signature verification is an oracle:
      sig_ok public_key_text server key_id = VerifyJSON(server, key_id, key, signed) succeeds *)
@@ -464,8 +475,7 @@ Section Abs.
   Definition abs (f : ver_flags) (e : json) (auths : list json) : auth_input :=
     let create := create_of f auths in
     let creator := match create with Some c => c_sender c | None => [] end in
-    let ple := find_auth t_power_levels [] auths in
-    let plp := match ple with Some p => pl_of_event (vf_int_levels f) p | None => None end in
+    let pls := pl_of_auths f creator auths in
     let sender := ev_sender e in
     let target := match ev_state_key e with Some k => k | None => [] end in
     let nm := member_of_event e in
@@ -493,12 +503,8 @@ Section Abs.
        ai_state_key := ev_state_key e;
        ai_prev := ev_prev e;
        ai_create := create;
-       ai_pl_present := match plp with Some _ => true | None => false end;
-       ai_pl := match ple, plp with
-                | None, _ => pl_absent creator
-                | Some _, Some p => p
-                | Some _, None => pl_zero
-                end;
+       ai_pl_present := fst pls;
+       ai_pl := snd pls;
        ai_join_rule := join_rule_of auths;
        ai_sender_member := member_from_auth auths sender;
        ai_new_member := if is_member then nm else None;
